@@ -263,10 +263,11 @@ func (c08) Judge(c *Case, obs []*Obs) []Finding {
 				add(Finding{Class: "heredoc-not-expanded", Obs: []int{oi}, Detail: fmt.Sprintf("here-document %d: delimiter unquoted but the body %q holds no expansion node", i, shortStr(want.Body, 100))})
 				break
 			}
-			dl, err := unparseHD(r.Delim, false)
-			if want.Op == "<<-" {
-				dl = strings.TrimLeft(dl, "\t")
+			if r.Delim == nil {
+				continue // how (and whether) the closing line is kept in the tree is not pinned by C08
 			}
+			dl, err := unparseHD(r.Delim, false)
+			dl = strings.TrimLeft(dl, "\t")
 			if err != nil || dl != want.Delim {
 				add(Finding{Class: "heredoc-delimiter-line", Obs: []int{oi}, Detail: fmt.Sprintf("here-document %d: closing line %q, expected %q", i, dl, want.Delim)})
 				break
